@@ -20,7 +20,9 @@ Record BInv (x : st) : Prop := {
   b_cl : forall s c, lookup s (cstreams x) = Some c -> c_closed c = true -> c_blocked c = 0;
   b_sl : forall s c, lookup s (sstreams x) = Some c -> s_closed c = true -> s_blocked c = 0;
   b_gone : forall s c, In (s, c) (sgone x) -> s_closed c = true /\ s_blocked c = 0;
-  b_lost : lost x = true -> forall s c, lookup s (cstreams x) = Some c -> c_closed c = true }.
+  b_lost : lost x = true -> forall s c, lookup s (cstreams x) = Some c -> c_closed c = true;
+  b_torn : torn x = true -> lost x = true /\ sdecq x = [];
+  b_torn_cl : torn x = true -> forall s c, lookup s (sstreams x) = Some c -> s_closed c = true }.
 
 Lemma BInv_init : BInv init.
 Proof. constructor; simpl; try discriminate; try tauto. constructor. Qed.
@@ -35,7 +37,10 @@ Proof.
   - apply H.
 Qed.
 
-Ltac upd LS := match goal with
+Ltac upd LS TC := match goal with
+  | |- _ -> forall s c, lookup s (update _ _ (sstreams _)) = Some c -> s_closed c = true =>
+      let T := fresh "T" in
+      intros T; apply (all_update (fun c => s_closed c = true)); [apply TC; auto|cbv beta; simpl]
   | |- forall s c, lookup s (update _ _ (cstreams _)) = Some c -> c_closed c = true -> c_blocked c = 0 =>
       apply (all_update (fun c => c_closed c = true -> c_blocked c = 0)); [assumption|cbv beta; simpl]
   | |- forall s c, lookup s (update _ _ (sstreams _)) = Some c -> s_closed c = true -> s_blocked c = 0 =>
@@ -46,54 +51,66 @@ Ltac upd LS := match goal with
   | |- NoDup (map fst (update _ _ _)) => apply NoDup_update; assumption
   end.
 
+Lemma s_trigger_closed m c : s_closed (s_trigger m c) = s_closed c.
+Proof. unfold s_trigger. destruct (s_blocked c); [|destruct (s_events c)]; reflexivity. Qed.
+Lemma s_do_read_closed c : s_closed c = true -> s_closed (s_do_read c) = true.
+Proof. unfold s_do_read. intros ->. reflexivity. Qed.
+
+Ltac tn_contra TN := let T := fresh "T" in intros T; destruct (TN T); first [congruence | split; congruence].
+
 Lemma BInv_step v x a x' : BInv x -> step v x a = Some x' -> BInv x'.
 Proof.
-  intros [ND CL SL GN LS] H.
+  intros [ND CL SL GN LS TN TC] H.
   destruct a; simpl in H.
-  - (* COpen *) destr H. constructor; simpl; auto; try (intros; congruence); try (intros ?; apply LS; congruence); try upd LS; auto; congruence.
-  - (* CWrite *) destr H; constructor; simpl; auto; try (intros; congruence); try (intros ?; apply LS; congruence); try upd LS; eauto.
+  - (* COpen *) destr H. constructor; simpl; auto; try (intros; congruence); try (intros ?; apply LS; congruence); try tn_contra TN; try upd LS TC; auto; congruence.
+  - (* CWrite *) destr H; constructor; simpl; auto; try (intros; congruence); try (intros ?; apply LS; congruence); try tn_contra TN; try upd LS TC; eauto.
     all: try congruence.
     all: match goal with E : lookup _ (cstreams _) = Some ?c, K : c_closed ?c = false |- _ =>
            erewrite LS in K; eauto; discriminate end.
-  - (* CRead *) destr H; constructor; simpl; auto; try (intros; congruence); try (intros ?; apply LS; congruence); try upd LS; unfold c_do_read.
+  - (* CRead *) destr H; constructor; simpl; auto; try (intros; congruence); try (intros ?; apply LS; congruence); try tn_contra TN; try upd LS TC; unfold c_do_read.
     all: try (destruct (c_closed c) eqn:K; simpl; eauto; destruct (c_events c); simpl; discriminate).
     all: rewrite (LS L _ _ Heqo); reflexivity.
-  - (* CClose *) destr H; constructor; simpl; auto; try (intros; congruence); try (intros ?; apply LS; congruence); try upd LS; auto; congruence.
-  - (* CUnary *) destr H; constructor; simpl; auto; try (intros; congruence); try (intros ?; apply LS; congruence).
-  - (* NetC2S *) destr H; constructor; simpl; auto; try (intros; congruence); try (intros ?; apply LS; congruence).
-  - (* NetS2C *) destr H; constructor; simpl; auto; try (intros; congruence); try (intros ?; apply LS; congruence).
-  - (* ConnLoss *) destr H; constructor; simpl; auto; try (intros; congruence); try (intros ?; apply LS; congruence).
-    + rewrite map_fst_map. auto.
+  - (* CClose *) destr H; constructor; simpl; auto; try (intros; congruence); try (intros ?; apply LS; congruence); try tn_contra TN; try upd LS TC; auto; congruence.
+  - (* CUnary *) destr H; constructor; simpl; auto; try (intros; congruence); try (intros ?; apply LS; congruence); try tn_contra TN.
+  - (* NetC2S *) destr H; constructor; simpl; auto; try (intros; congruence); try (intros ?; apply LS; congruence); try tn_contra TN.
+  - (* NetS2C *) destr H; constructor; simpl; auto; try (intros; congruence); try (intros ?; apply LS; congruence); try tn_contra TN.
+  - (* ConnLoss *) destr H; constructor; simpl; auto; try tn_contra TN.
     + intros s c. rewrite lookup_map. destruct (lookup s (cstreams x)); simpl; try discriminate.
       intros E; inversion E; subst; auto.
+    + intros _ s c. rewrite lookup_map. destruct (lookup s (cstreams x)); simpl; try discriminate.
+      intros E; inversion E; subst; auto.
+  - (* STeardown *) destr H; constructor; simpl; auto.
+    + rewrite map_fst_map. auto.
     + intros s c. rewrite lookup_map. destruct (lookup s (sstreams x)); simpl; try discriminate.
       intros E; inversion E; subst; auto.
-    + intros _ s c. rewrite lookup_map. destruct (lookup s (cstreams x)); simpl; try discriminate.
+    + intros _ s c. rewrite lookup_map. destruct (lookup s (sstreams x)); simpl; try discriminate.
       intros E; inversion E; subst; auto.
   - (* SDecode *)
     destruct (sdecq x) as [|f r] eqn:D; try discriminate.
     destruct f.
-    + destr H; constructor; simpl; auto; try (intros; congruence); try (intros ?; apply LS; congruence); try upd LS; auto.
-    + destr H; constructor; simpl; auto; try (intros; congruence); try (intros ?; apply LS; congruence).
-    + destr H; constructor; simpl; auto; try (intros; congruence); try (intros ?; apply LS; congruence).
+    + destr H; constructor; simpl; auto; try (intros; congruence); try (intros ?; apply LS; congruence); try tn_contra TN; try upd LS TC; auto.
+    + destr H; constructor; simpl; auto; try (intros; congruence); try (intros ?; apply LS; congruence); try tn_contra TN.
+    + destr H; constructor; simpl; auto; try (intros; congruence); try (intros ?; apply LS; congruence); try tn_contra TN.
       all: try (apply NoDup_remove; assumption).
       all: try (intros k c; rewrite in_app_iff; simpl; intros [F|[F|[]]]; eauto; inversion F; subst; auto).
       all: intros k c; destruct (Nat.eq_dec k st);
         [subst; rewrite NoDup_remove_lookup; auto; discriminate|rewrite lookup_remove_ne; auto; apply SL].
-    + destr H; constructor; simpl; auto; try (intros; congruence); try (intros ?; apply LS; congruence).
-  - (* SAck *) destr H; constructor; simpl; auto; try (intros; congruence); try (intros ?; apply LS; congruence); try upd LS; eauto.
-  - (* SStart *) destr H; constructor; simpl; auto; try (intros; congruence); try (intros ?; apply LS; congruence); try upd LS; eauto.
-  - (* SDeliver *) destr H; constructor; simpl; auto; try (intros; congruence); try (intros ?; apply LS; congruence); try upd LS.
-    unfold s_trigger. destruct (s_blocked s0) eqn:B; simpl; [eauto|].
-    destruct (s_events s0); simpl; intros K; rewrite (SL _ _ Heqo K) in B; discriminate.
-  - (* SWrite *) destr H; constructor; simpl; auto; try (intros; congruence); try (intros ?; apply LS; congruence); try upd LS; eauto; discriminate.
-  - (* SRead *) destr H; constructor; simpl; auto; try (intros; congruence); try (intros ?; apply LS; congruence); try upd LS.
-    unfold s_do_read. destruct (s_closed s0) eqn:K; simpl; eauto.
-    destruct (s_events s0); simpl; discriminate.
+    + destr H; constructor; simpl; auto; try (intros; congruence); try (intros ?; apply LS; congruence); try tn_contra TN.
+  - (* SAck *) destr H; constructor; simpl; auto; try (intros; congruence); try (intros ?; apply LS; congruence); try tn_contra TN; try upd LS TC; eauto.
+  - (* SStart *) destr H; constructor; simpl; auto; try (intros; congruence); try (intros ?; apply LS; congruence); try tn_contra TN; try upd LS TC; eauto.
+  - (* SDeliver *) destr H; constructor; simpl; auto; try (intros; congruence); try (intros ?; apply LS; congruence); try tn_contra TN; try upd LS TC.
+    + unfold s_trigger. destruct (s_blocked s0) eqn:B; simpl; [eauto|].
+      destruct (s_events s0); simpl; intros K; rewrite (SL _ _ Heqo K) in B; discriminate.
+    + rewrite s_trigger_closed. eauto.
+  - (* SWrite *) destr H; constructor; simpl; auto; try (intros; congruence); try (intros ?; apply LS; congruence); try tn_contra TN; try upd LS TC; eauto; discriminate.
+  - (* SRead *) destr H; constructor; simpl; auto; try (intros; congruence); try (intros ?; apply LS; congruence); try tn_contra TN; try upd LS TC.
+    + unfold s_do_read. destruct (s_closed s0) eqn:K; simpl; eauto.
+      destruct (s_events s0); simpl; discriminate.
+    + apply s_do_read_closed. eauto.
   - (* CDecode *)
     destruct (cdecq x) as [|f r] eqn:D; try discriminate.
-    destruct f; destr H; constructor; simpl; auto; try (intros; congruence); try (intros ?; apply LS; congruence); try upd LS; eauto.
-  - (* CDeliver *) destr H; constructor; simpl; auto; try (intros; congruence); try (intros ?; apply LS; congruence); try upd LS; unfold c_trigger.
+    destruct f; destr H; constructor; simpl; auto; try (intros; congruence); try (intros ?; apply LS; congruence); try tn_contra TN; try upd LS TC; eauto.
+  - (* CDeliver *) destr H; constructor; simpl; auto; try (intros; congruence); try (intros ?; apply LS; congruence); try tn_contra TN; try upd LS TC; unfold c_trigger.
     + destruct (c_blocked c) eqn:B; simpl; [eauto|].
       destruct (c_events c); simpl; intros K; rewrite (CL _ _ Heqo K) in B; discriminate.
     + destruct (c_blocked c); simpl; [eauto|]. destruct (c_events c); simpl; eauto.
